@@ -58,7 +58,21 @@ def build_graph(segs, order=None):
         if g.contigs[sn] is None:
             g.contigs[sn] = sr
         g.contig_to_nodes[sn].append(nid)
+    # the links that make the walk(s) under analysis walks of the graph (the replay writes the same links)
+    for (a, da, b, db) in sorted(WALK_LINKS[0]):
+        g.add_edge(a, da, b, db, 0, [0])
     return g
+
+
+WALK_LINKS = [set()]
+
+
+def set_walk_links(walks):
+    links = set()
+    for walk in walks:
+        for (o1, n1), (o2, n2) in zip(walk, walk[1:]):
+            links.add((n1, "+" if o1 == ">" else "-", n2, "+" if o2 == ">" else "-"))
+    WALK_LINKS[0] = links
 
 
 def toks(path):
@@ -130,7 +144,11 @@ def mk_alignment(name, cols, strand, path, plen, ps, pe, cigar, tags):
                         tags={kk: vv for kk, vv in tags})
 
 
+GRAPH_ORDER = [None]  # S-line order of the graph handed to view.run (None = ORDER)
+
+
 def run_view(segs, recs, fmt, order=None):
+    order = order or GRAPH_ORDER[0]
     """drive the real view.run over stub reader + stub graph; returns output lines"""
     V = M["V"]
     e = stubs.env()
@@ -155,6 +173,7 @@ def parse_tags(fields):
 def convert_chain(walk, L, ps, pe, k, cols, which):
     """u -> stable -> unstable' through view.run; assertions for C01 or C02"""
     segs = layout(L)
+    set_walk_links([walk])
     path = "".join(o + n for o, n in walk)
     usteps = [(segs[n][0], segs[n][1], segs[n][1] + segs[n][2], o) for o, n in walk]
     total = total_of(usteps)
@@ -283,6 +302,7 @@ def stable_direct(sintervals, bare, strand, L, ps, pe, k):
     """stable input (not produced by gaftools) -> unstable; locus assertion only (C01).
     sintervals: list of (orient, contig, first seg index, last seg index) runs of whole segments"""
     segs = layout(L)
+    set_walk_links([])
     clen = {"chr1": L[0] + L[1] + L[2], "chr2": L[9] + L[10]}
     bycontig = {}
     for nid in ORDER:
